@@ -5,6 +5,7 @@ go 1.25
 require github.com/esimov/gogu v0.0.0
 
 require (
+	github.com/anishathalye/porcupine v1.3.0 // indirect
 	golang.org/x/exp v0.0.0-20230303215020-44a13b063f3e // indirect
 	golang.org/x/sync v0.1.0 // indirect
 )
